@@ -89,7 +89,7 @@ def _c06_property(r):
 
 PROPS["C06"] = {
     "property_check": _c06_property,
-    "theorem_modules": ["Sidetree.Props.C06", "Sidetree.Props.C06Num"],
+    "theorem_modules": ["Sidetree.Props.C06", "Sidetree.Props.C06Num", "Sidetree.Props.CollideAt"],
     "prescribes": "Sidetree.Hashing.* (Props.C06: model_multihash_def, valid_iff, code_of_hash, computed_using_iff)",
     "obligations": [{"name": "Shape_Jcs", "facts": "module:Jcs"}, 
         {"name": "C06_supportedCodes", "facts": ["hashSupportedCodes"]},
@@ -104,7 +104,7 @@ PROPS["C06"] = {
             "non-canonicalizable values. Compared: CalculateModelMultihash, IsValidModelMultihash, GetMultihashCode, IsComputedUsingMultihashAlgorithms, docutil.CalculateID. "
             "Every case is non-trivial (each exercises decode + recompute); distinct = distinct (value text, hash, code).",
     "technique": "Lean 4 theorems parametric in the hash family (base64url/varint/multihash round trips by induction) + differential correspondence with real SHA-2",
-    "level_text": "Proved in Lean (Props/C06Num.lean): two values whose numbers are plain integers below 2^53 with one model hash have the same normal form or the hash family has an explicit collision (same_hash_same_value: canonical bytes determine the value, canonical_bytes_determine_value), and the hash is a function of the normal form (same_value_same_hash). Proved in Lean for every value, hash string and hash family with codes < 2^63 and digests < 2^31 bytes: the model multihash formula and the error for "
+    "level_text": "Where a theorem of this property concludes '... or the hash family has a collision', Props/CollideAt.lean restates it with the colliding pair NAMED (CollidesAt H c a b: the canonical bytes of the two values concerned collide under the function of code c) - the bare existential 'some collision exists' is true of every hash function by counting and would make the alternative empty of content. Proved in Lean (Props/C06Num.lean): two values whose numbers are plain integers below 2^53 with one model hash have the same normal form or the hash family has an explicit collision (same_hash_same_value: canonical bytes determine the value, canonical_bytes_determine_value), and the hash is a function of the normal form (same_value_same_hash). Proved in Lean for every value, hash string and hash family with codes < 2^63 and digests < 2^31 bytes: the model multihash formula and the error for "
                   "unsupported codes; validation succeeds iff the string is the hash computed from a value with the same canonical form under the code in its own prefix "
                   "(or an explicit collision is exhibited); code_of_hash; computed-using iff; everything that validates is a well-formed encoded multihash; "
                   "base64url, varint and multihash decode∘encode = id (unbounded, by induction) and, conversely, every accepted encoded hash is the canonical text of its code and "
@@ -127,7 +127,7 @@ PROPS["C04"] = {
             "GetCommitmentFromRevealValue (given and own). Chains create -> (update | recover)* -> deactivate of 2-12 real signed operations (one or both hash algorithms "
             "configured, in either order; occasionally an element with a member deleted): Parser.GetRevealValue and Parser.GetCommitment of every element. All cases non-trivial.",
     "technique": "Lean 4 theorems parametric in the hash family + differential correspondence with real SHA-2",
-    "level_text": "Proved in Lean: reveal = multihash(H(JCS(jwk))), commitment = multihash(H(H(JCS(jwk)))), commitmentFromReveal(reveal(k)) = commitment(k) for every key and "
+    "level_text": "Where a theorem of this property concludes '... or the hash family has a collision', Props/CollideAt.lean restates it with the colliding pair NAMED (CollidesAt H c a b: the canonical bytes of the two values concerned collide under the function of code c) - the bare existential 'some collision exists' is true of every hash function by counting and would make the alternative empty of content. Proved in Lean: reveal = multihash(H(JCS(jwk))), commitment = multihash(H(H(JCS(jwk)))), commitmentFromReveal(reveal(k)) = commitment(k) for every key and "
                   "supported code; keys with different canonical JWK (any member, nonce included) have different commitments and reveal values or an explicit collision exists. "
                   "Chain (Props/C04Chain.lean): the reveal value the parser reports for an update, recover or deactivate is the reveal value of the key inside its signed data "
                   "(reveal_maps_to_signing_key_commitment), so if the preceding operation on the chain published that key's commitment the two are linked (chain_linked); a deactivate "
@@ -202,7 +202,7 @@ def _actions(r):
 
 
 PROPS["C10"] = {
-    "theorem_modules": ["Sidetree.Props.C10", "Sidetree.Props.C10Rfc"],
+    "theorem_modules": ["Sidetree.Props.C10", "Sidetree.Props.C10Rfc", "Sidetree.Props.C10RfcArr"],
     "prescribes": "Sidetree.Composer.applyPatches with Sidetree.JsonPatch.Lib (Props.C10); RFC 6902 side: Sidetree.JsonPatch.Rfc.applyOp",
     "obligations": [
         {"name": "C10_composerShape", "facts": ["composerDispatch", "applyJSONShape"]}, {"name": "Shape_Composer", "facts": "module:Composer"},
@@ -219,7 +219,7 @@ PROPS["C10"] = {
             "resulting document (as a value), nil-on-error, and that neither input changed. In addition every ietf operation is run through RFC 6902 as written; a case where the "
             "library (and the implementation) deviates is a property-level violation classified by operation kind and relation. Non-trivial = list applied; distinct = distinct (doc, patches).",
     "technique": "Lean 4 theorems (per-action semantics = declarative spec, fold, unique-id invariant) + faithful library model vs RFC 6902 model + differential correspondence",
-    "level_text": "Proved in Lean (Props/C10Rfc.lean): on array-free walks the library model and RFC 6902 as written agree outcome for outcome (success and refusal) for add and remove and for replace of an existing member (add_agree, remove_agree, replace_agree_existing; walk_agree by induction over the pointer), the library's replace is RFC add there (replace_is_rfc_add), and what the RFC accepts the library does alike (replace_le); the deviations inside the attempted fragment are kernel-evaluated examples (pointer without leading slash, replace of a missing member, add without value, index spellings 01 and -1). Proved in Lean: ApplyPatches is the left fold of the per-action step with first-failure abort; add-keys/add-services = upsert-by-id spec (existing order kept, replaced in place, "
+    "level_text": "Proved in Lean (Props/C10Rfc.lean): on array-free walks the library model and RFC 6902 as written agree outcome for outcome (success and refusal) for add and remove and for replace of an existing member (add_agree, remove_agree, replace_agree_existing; walk_agree by induction over the pointer), the library's replace is RFC add there (replace_is_rfc_add), and what the RFC accepts the library does alike (replace_le); the same with arrays entered by canonical indices on the way and at the target, - for add included (Props/C10RfcArr.lean; root pointer excluded; RFC 6902 here means our transcription JsonPatch.Rfc); the deviations inside the attempted fragment are kernel-evaluated examples (pointer without leading slash, replace of a missing member, add without value, index spellings 01, 00 and -1, an index beyond int64, move overwriting instead of inserting). Proved in Lean: ApplyPatches is the left fold of the per-action step with first-failure abort; add-keys/add-services = upsert-by-id spec (existing order kept, replaced in place, "
                   "new entries appended), remove = filter by id (unknown ids ignored), also-known-as = ordered union / difference, replace = exactly the given keys and services; unique ids are "
                   "preserved by every validated non-ietf patch and by ietf patches (via C11). The ietf action is modelled twice - the pinned library as it behaves (validated against the "
                   "implementation on every case) and RFC 6902 as written - and the check reports every operation where the two part ways. wellformed_invariant: every validated patch keeps publicKey and service lists of objects and nothing else (no entry a later patch would skip).",
@@ -404,7 +404,7 @@ PROPS["C02"] = {
 }
 
 PROPS["C03"] = {
-    "theorem_modules": ["Sidetree.Props.C03", "Sidetree.Props.C05Spelling", "Sidetree.Props.C03Values"],
+    "theorem_modules": ["Sidetree.Props.C03", "Sidetree.Props.C05Spelling", "Sidetree.Props.C03Values", "Sidetree.Props.CollideAt"],
     "prescribes": "Sidetree.Parser.parse (Props.C03.create_self_certifying, suffix_binds, delta_binds)",
     "obligations": _PARSER_OBL + [{"name": "C03_uniqueSuffix", "facts": ["uniqueSuffixCalls"]},
                                   {"name": "C06_validCompare", "facts": ["isValidCompare", "isValidCalls"]}],
@@ -416,7 +416,7 @@ PROPS["C03"] = {
             "first or the second; each in canonical form and two re-spellings (member order at every level, whitespace, escapes, number spellings), and with one field modified "
             "(recovery commitment, anchor origin, type, delta with and without the matching hash). Compared: accept/reject, suffix, id, anchor origin, validator calls.",
     "technique": "Lean 4 theorems (suffix formula, hash binding with explicit collision alternative, member-order invariance) + differential correspondence",
-    "level_text": "Proved in Lean (Props/C03Values.lean): the binding theorems hold for values, not only canonical bytes - two suffix data with one suffix agree in delta hash, recovery commitment, type and (up to member order inside it) anchor origin, and are equal outright when the anchor origin is absent or a string, or the hash family has an explicit collision (suffix_binds_value, suffix_binds_equal); two deltas validating against one hash have the same update commitment and the same patches up to normal form (delta_binds_value). Proved in Lean (Props/C05Spelling.lean, Lemmas/Whitespace.lean, EscapeSpelling.lean): request texts that spell one JSON value with different insignificant whitespace and different escape spellings of strings and member names (numbers: plain integers below 2^53) are parsed to the same operation - same suffix, delta, signed data - for the same size (request_spelling_irrelevant); integer-valued number spellings normalize to the plain integer (Lemmas/NumSpelling.lean, normalize_int_valued). Proved in Lean: every accepted create has suffix = model multihash of the re-marshalled suffix data under the first configured algorithm, id = namespace:suffix, and outside "
+    "level_text": "Where a theorem of this property concludes '... or the hash family has a collision', Props/CollideAt.lean restates it with the colliding pair NAMED (CollidesAt H c a b: the canonical bytes of the two values concerned collide under the function of code c) - the bare existential 'some collision exists' is true of every hash function by counting and would make the alternative empty of content. Proved in Lean (Props/C03Values.lean): the binding theorems hold for values, not only canonical bytes - two suffix data with one suffix agree in delta hash, recovery commitment, type and (up to member order inside it) anchor origin, and are equal outright when the anchor origin is absent or a string, or the hash family has an explicit collision (suffix_binds_value, suffix_binds_equal); two deltas validating against one hash have the same update commitment and the same patches up to normal form (delta_binds_value). Proved in Lean (Props/C05Spelling.lean, Lemmas/Whitespace.lean, EscapeSpelling.lean): request texts that spell one JSON value with different insignificant whitespace and different escape spellings of strings and member names (numbers: plain integers below 2^53) are parsed to the same operation - same suffix, delta, signed data - for the same size (request_spelling_irrelevant); integer-valued number spellings normalize to the plain integer (Lemmas/NumSpelling.lean, normalize_int_valued). Proved in Lean: every accepted create has suffix = model multihash of the re-marshalled suffix data under the first configured algorithm, id = namespace:suffix, and outside "
                   "batch mode a delta that validates against the recorded delta hash; equal suffixes force equal canonical suffix data, and equal delta hashes equal canonical deltas, or "
                   "an explicit hash collision; the decoding of a create request does not depend on top-level member order. Invariance under whitespace/escape/number spelling of the "
                   "text holds because the decoder reads the parsed value; nested member order rests on the stream.",
@@ -656,7 +656,7 @@ def _c17_property(r):
     return None
 
 PROPS["C17"] = {
-    "theorem_modules": ["Sidetree.Props.C17", "Sidetree.Props.C17Vdr", "Sidetree.Props.C17Reports", "Sidetree.Props.C17Process", "Sidetree.Props.C17ProcessNum"],
+    "theorem_modules": ["Sidetree.Props.C17", "Sidetree.Props.C17Vdr", "Sidetree.Props.C17Reports", "Sidetree.Props.C17Process", "Sidetree.Props.C17ProcessNum", "Sidetree.Props.C17ProcessPinned"],
     "prescribes": "Sidetree.Did.resolve / processOperation (Props.C17)",
     "obligations": [{"name": "Shape_Did", "facts": "module:Did"}, {"name": "C17_defaultProtocol", "facts": ["defaultProtocol"]}] + _PARSER_OBL +
                    [{"name": "Shape_Transformer", "facts": "module:Transformer"}, {"name": "Shape_Client", "facts": "module:Client"}],
@@ -674,7 +674,7 @@ PROPS["C17"] = {
             "ResolveDocument of the DID it returned. VDR.Create (twice) and VDR.Read on did-go documents with several keys. Every DID of the resolve stream is also given to Parser.ParseDID "
             "directly (the handler looks at the namespace first). Compared: accept/refuse, the whole resolution result, and short / long / error of ParseDID.",
     "technique": "Lean 4 theorems on the resolution model (namespace gate, canonical initial state, shape of resolvable DIDs, self-certification) + go/ast obligations + differential correspondence",
-    "level_text": "Proved in Lean: a DID resolves only if it begins with the handler's namespace and a colon (so did:foobar never resolves on did:foo); short forms are refused; an initial "
+    "level_text": "process_result_resolves_pinned (Props/C17ProcessPinned.lean): the DID that resolves to the returned result IS the id of the DID document inside that result (namespace:suffix:initial-state), not merely some DID. Proved in Lean: a DID resolves only if it begins with the handler's namespace and a colon (so did:foobar never resolves on did:foo); short forms are refused; an initial "
                   "state is accepted only if it is the exact unpadded base64url encoding of the canonical JSON of the request it decodes to; every resolvable DID is exactly "
                   "namespace:suffix:initial-state - nothing between namespace and suffix (resolve_shape, D49) - "
                   "where the request is accepted by the parser under the handler's protocol and the suffix is the sha2-256 model multihash of its suffix data (via C03); the id and "
@@ -987,7 +987,7 @@ PROPS["C20"] = {
                   "run explores under the race detector, not proved. Trusted: Lean kernel; extractor; harness; the race detector.",
 }
 
-PROPS["C04"]["theorem_modules"] = ["Sidetree.Props.C04", "Sidetree.Props.C04Chain"]
+PROPS["C04"]["theorem_modules"] = ["Sidetree.Props.C04", "Sidetree.Props.C04Chain", "Sidetree.Props.CollideAt"]
 PROPS["C04"]["obligations"] = PROPS["C04"]["obligations"] + _PARSER_OBL
 
 # every declaration of every source file a property is anchored in (properties.jsonl), as one fact per file:
